@@ -20,7 +20,7 @@ def sort_of(ty):
         return I
     if ty == "bool":
         return B
-    if ty in ("bytes", "bytearray", "str", "ilist", "ituple"):
+    if ty in ("bytes", "bytearray", "str", "ilist", "ituple", "clist"):
         return ISq
     if isinstance(ty, tuple) and ty[0] in ("list", "tuplelist"):
         return VSq
@@ -34,7 +34,7 @@ def to_term(eng, st, v, ty):
         return eng.as_int(st, v)
     if ty == "bool":
         return eng.truth(st, v) if not isinstance(v, VBool) else v.t
-    if ty in ("bytes", "bytearray", "str", "ilist", "ituple"):
+    if ty in ("bytes", "bytearray", "str", "ilist", "ituple", "clist"):
         if isinstance(v, VSeq):
             return v.t
         if isinstance(v, VAny):
@@ -66,7 +66,7 @@ def from_term(t, ty):
         return VInt(t)
     if ty == "bool":
         return VBool(t)
-    if ty in ("bytes", "bytearray", "str", "ilist", "ituple"):
+    if ty in ("bytes", "bytearray", "str", "ilist", "ituple", "clist"):
         return VSeq(t, ty)
     if isinstance(ty, tuple) and ty[0] in ("list", "tuplelist"):
         return VList(t, ty[1], "list" if ty[0] == "list" else "tuple")
@@ -309,7 +309,7 @@ def same_shape(v, ty):
         return isinstance(v, VInt)
     if ty == "bool":
         return isinstance(v, VBool)
-    if ty in ("bytes", "bytearray", "str", "ilist", "ituple"):
+    if ty in ("bytes", "bytearray", "str", "ilist", "ituple", "clist"):
         return isinstance(v, VSeq)
     if isinstance(ty, tuple) and ty[0] in ("list", "tuplelist"):
         return isinstance(v, VList)
